@@ -27,8 +27,8 @@ Proof. apply Z.divide_pos_le; assumption. Qed.
 Lemma overhead_quarter : forall hs, Forall (fun z => 8 * n <= z) (map hsize hs) ->
   4 * ((hdr_sz + n) * Z.of_nat (length hs)) <= sumZ (map hsize hs).
 Proof.
-  induction hs as [|h hs IH]; intros HF; [cbn; lia|].
-  cbn [map] in HF. inversion HF as [|? ? Hh HF']; subst. specialize (IH HF').
+  induction hs as [|h hs IH]; intros HF; [cbn [map length sumZ fold_right Z.of_nat]; rewrite Z.mul_0_r; lia|].
+  cbn [map] in HF. inversion HF as [|? ? Hh HF']; subst. specialize (IH HF'). cbn beta in Hh.
   cbn [map length sumZ fold_right]. unfold sumZ in *. rewrite Nat2Z.inj_succ, Z.mul_succ_r.
   pose proof n_ge_unit. pose proof hdr_le_unit. lia.
 Qed.
@@ -52,7 +52,7 @@ Proof.
   - destruct (gc st mss) as [[[st1 mf] sf]|] eqn:E2; [|left; reflexivity].
     destruct (gc_inv_lemma _ _ _ _ _ HI E2) as (HI1 & Hsz1 & _).
     destruct (must_grow st1 size mf sf) eqn:Eg.
-    + right. exists st1, mf, sf. split; [reflexivity|]. split; [reflexivity|]. split; [reflexivity|].
+    + right. exists st1, mf, sf. split; [reflexivity|]. split; [reflexivity|]. split; [exact Eg|].
       assert (Hg : map hsize (heaps (grow st1 size)) = map hsize (heaps st) ++ [grow_size st1 size]).
       { unfold grow. cbn [heaps]. rewrite map_app, Hsz1. reflexivity. }
       destruct (try_alloc (grow st1 size) size) as [[[i o] st3]|] eqn:E3; cbn [fst]; [|exact Hg].
